@@ -741,3 +741,78 @@ SUBCHECKS = [
              doc='ShallowWaterEquations.implicit_inverse (and its time-reversed wrapper) == float64 reference solve of the '
                  '2x2-per-layer system; operator == documented implicit tendency; pass-through of vorticity'),
 ]
+
+
+# ----------------------------------------------------------------------------
+# one-parameter twins in one process (memoisation / stale derived data)
+
+
+_TWIN_CHANGES = ('radius', 't_ref', 'kappa', 'R', 'boundaries', 'eta', 'matmul')
+
+
+@st.composite
+def _pe_twin_case(draw, tier):
+  base = draw(_pe_case(tier))
+  return {'base': base, 'change': draw(st.sampled_from(list(_TWIN_CHANGES))), 'factor': draw(st.sampled_from([2.0, 0.5, 1.1])),
+          'level': draw(st.integers(0, 11)), 'back_to_base': draw(st.booleans())}
+
+
+def _twin_of(case):
+  import copy
+  base = case['base']
+  twin = copy.deepcopy(base)
+  ch, f = case['change'], float(case['factor'])
+  n = len(base['boundaries']) - 1
+  if ch == 'radius':
+    twin['grid']['radius'] = float((base['grid']['radius'] or 1.0) * f)
+  elif ch == 't_ref':
+    k = case['level'] % n
+    twin['t_ref'][k] = float(base['t_ref'][k] + 10.0 * f)
+  elif ch == 'kappa':
+    twin['kappa'] = float(base['kappa'] * (1.0 + 0.1 * f))
+  elif ch == 'R':
+    twin['R'] = float(base['R'] * f)
+  elif ch == 'boundaries':
+    if n < 2:
+      twin['t_ref'][0] = float(base['t_ref'][0] + 10.0)
+    else:
+      k = 1 + case['level'] % (n - 1)
+      b = list(base['boundaries'])
+      b[k] = float(np.round(b[k] + 0.3 * (b[k + 1] - b[k]), 6))
+      twin['boundaries'] = b
+  elif ch == 'eta':
+    twin['eta'] = float(-base['eta'] if f == 0.5 else base['eta'] * f)
+  else:
+    twin['matmul'] = {'sparse': 'dense', 'dense': 'sparse', None: 'sparse'}[base.get('matmul')]
+  return twin
+
+
+def run_pe_twins(case):
+  """Evaluates a configuration and then, in the same process, a twin that differs in exactly one parameter
+  (optionally the base again afterwards). Each must still be the exact resolvent of its own operator: anything
+  memoised or derived once per process from too coarse a key (a cached inverse, eigenvalues of another sphere)
+  shows up here and nowhere else, because the other sub-checks draw all parameters afresh for every case."""
+  out = run_pe_resolvent(case['base'])
+  out.labels = [l for l in out.labels] + [f"twin_change={case['change']}"]
+  if not out.ok:
+    return out
+  seq = [('twin', _twin_of(case))] + ([('base_again', case['base'])] if case.get('back_to_base') else [])
+  for which, cfg in seq:
+    o2 = run_pe_resolvent(cfg)
+    out.units += o2.units
+    if not o2.ok:
+      det = dict(o2.detail or {})
+      det['sequence_position'] = which
+      det['changed_parameter'] = case['change']
+      return out.fail(**det)
+  out.nontrivial = True
+  return out
+
+
+SUBCHECKS.append(
+    Subcheck('pe_resolvent_twins', run_pe_twins, strategy=_pe_twin_case,
+             examples={'quick': 36, 'thorough': 300}, shards={'quick': 3, 'thorough': 6},
+             wall={'quick': 300.0, 'thorough': 2400.0}, weight=6,
+             rule='non-trivial = both members of the pair were solved in one process and differ in exactly one of '
+                  'radius / T_ref / kappa / R / one sigma boundary / step size / vertical matmul method',
+             doc='history of two (three) configurations in one process: each is the exact resolvent of its own operator'))
